@@ -3,7 +3,7 @@
            conc <maxConf|d> <maxTerm|d> <op> ... / <gate> <opA> <opB>  (forced overlap, see harness)
            kind = fsm (mock option handler, proto LCP) | ncp (mock handler, proto IPCP)
                   | lcp | ipcp | ipv6cp (real handlers)
-           op   = U | D | O | C | T | I<code>.<id>.<cls>.<dlen>[.<hex data>]
+           op   = U | D | O | C | T | R (Restore) | K (Kill) | I<code>.<id>.<cls>.<dlen>[.<hex data>]
                   id  = c (current lastReqID) | s (lastReqID+1) | p (lastReqID-1) | decimal
                   cls = g | n | r | b | m     (handler's answer to a Configure-Request; m = data does not parse)
                   data = the hex bytes if given, else <dlen> bytes a0 a1 ...
@@ -76,7 +76,14 @@ let () =
         let f = ref init in
         let all_items = ref [] in
         (* one event: returns (obs string, action strings, handler-call strings) *)
-        let do_op ?last op =
+        let admin_op op =       (* Restore() / Kill(): not events of the automaton *)
+          let f' = if op = "R" then restore !f else kill !f in
+          f := f';
+          let (((((s, r), a), l), i), fl) = obs f' in
+          (Printf.sprintf "%d/%d/%d/%d/%d/%d" (int_of_z s) (int_of_z r) (if a then 1 else 0)
+             (int_of_z l) (int_of_z i) (int_of_z fl), [], []) in
+        let rec do_op ?last op =
+          if op = "R" || op = "K" then admin_op op else
           let e = match op with
             | "U" -> EUp | "D" -> EDown | "O" -> EOpen | "C" -> EClose | "T" -> ETimeout
             | _ when String.length op > 1 && op.[0] = 'I' ->
